@@ -132,6 +132,9 @@ def run(index, tier="quick", seed=0) -> Result:
         else:
             res.ok("MEAN-1", k_, nontrivial=False)
     check_ori1(res, index, cls)
+    # SYM-1: per-simplex integrands are (anti)symmetric in the corners of the simplex
+    from ..cornersym import report as _sym1
+    _sym1(res, index, [("Polyhedron", "centroid")])
     return res
 
 
@@ -164,8 +167,24 @@ def check_ori1(res, index, cls):
                        and ("self", "_equations") in x.target.al and getattr(x.target, "tr", None) == "TA"]
                 if red:
                     verdict = ("offset-sum", e)
+                else:
+                    # sum of determinants of vertex triples taken from fixed positions of every face (face[:3]): the signed volume of
+                    # the fan from the origin only if every face is a triangle
+                    dets = [x for x in r_sf["events"] if x.type == "det" and x.func is sf]
+                    fixed = [n_ for n_ in ast.walk(sf.node) if isinstance(n_, ast.Subscript) and isinstance(n_.slice, ast.Slice)
+                             and n_.slice.upper is not None and isinstance(n_.slice.upper, ast.Constant) and isinstance(n_.slice.upper.value, int)
+                             and isinstance(n_.value, ast.Name)
+                             and any(isinstance(c_, ast.comprehension) and isinstance(c_.target, ast.Name) and c_.target.id == n_.value.id
+                                     and "faces" in ast.unparse(c_.iter) for c_ in ast.walk(sf.node))]
+                    if dets and fixed:
+                        verdict = ("first-k", e, ast.unparse(fixed[0]))
     if verdict == "volume":
         res.ok("ORI-1", "Polyhedron.sort_faces:global-orientation")
+    elif isinstance(verdict, tuple) and verdict[0] == "first-k":
+        e = verdict[1]
+        res.bad("ORI-1", "Polyhedron.sort_faces:first-k-vertices", e.where(), f"Polyhedron.sort_faces decides the common orientation from determinants of the "
+                f"vertices `{verdict[2]}` of every face: that is the signed volume only when every face is a triangle; for quadrilateral and larger faces "
+                "the omitted part of each face changes the sign for off-origin solids (all faces come out inward)")
     elif isinstance(verdict, tuple) and verdict[0] == "offset-sum":
         e = verdict[1]
         res.bad("ORI-1", "Polyhedron.sort_faces:offset-sum", e.where(), f"Polyhedron.sort_faces decides the common orientation of all faces from the plain sum of "
